@@ -137,6 +137,27 @@ def _one_map(ctx, lat):
                 ok = False
         rep.check(ok, 'R2', 'center-is-to_cartesian-half-half', where(bc), 'center = to_cartesian(1/2, 1/2)',
                   'Cell2::center is not the image of (1/2, 1/2) under to_cartesian')
+    gc = f.one(self_adt=CELL, name='get_corners')
+    if gc is not None:
+        rep.saw(gc)
+        from ..lineage import adaptor_chain
+        from ..mirutil import Tracer as _T
+        tg = _T(gc)
+        src, chain = adaptor_chain(tg, {'k': 'copy', 'l': 0, 'p': []})
+        names = [c[0] for c in chain]
+        okc = names[:2] == ['collect', 'map'] and all(x in ('collect', 'map', 'into_iter', 'iter') for x in names)
+        if okc:
+            mt = [c for c in chain if c[0] == 'map'][0][1]
+            co = tg.origin(mt['args'][1])
+            cb = f.body(co['rv']['closure']) if co['o'] == 'rvalue' and co['rv'].get('agg') == 'closure' else None
+            okc = False
+            if cb is not None:
+                tc = _T(cb)
+                calls = list(cb.calls())
+                okc = len(calls) == 1 and call_matches(calls[0][1], 'Cell2::to_cartesian_point') and calls[0][1]['dest']['l'] == 0 \
+                    and tc.origin(calls[0][1]['args'][1]).get('l') == 2
+        rep.check(okc, 'R2', 'corners-through-to_cartesian_point', where(gc), 'corners = fractional corners mapped by to_cartesian_point',
+                  'get_corners does not map its fractional corner list through to_cartesian_point')
     # isometry & translate
     for nm, extra in (('to_cartesian_isometry', []), ('to_cartesian_translate', ['x', 'y'])):
         bt = f.one(self_adt=CELL, name=nm)
